@@ -4,6 +4,11 @@ from . import classlaws, fingerprint
 
 def build(repo, tier, seed):
     vcs, und, sanity = fingerprint.build(repo)
+    from . import templated_keys_proof
+    v6, u6 = templated_keys_proof.build(repo)
+    v7, u7 = templated_keys_proof.option_contract(repo)
+    vcs = vcs + v6 + v7
+    und = und + u6 + u7
     b = classlaws.bundle(repo, tier, seed, ("L1", "L2"), classes=classlaws.READY + ["Dataset"], extra_vcs=vcs, extra_sanity=sanity)
     b["undecided"] += und
     b["functions"].append({"name": "labrea.types:Cacheable.fingerprint", "sha256_16": repo.sha(repo.module("types"), repo.module("types").classes["Cacheable"].methods["fingerprint"])})
